@@ -375,6 +375,20 @@ func proxyprotoBounds(r *R) {
 					return
 				}
 			}
+			// x[:m] and x[m+1:] with m the index bytes.IndexByte found in x itself, tested non-negative: decided
+			if m, which := foundIndexBound(sl); m != nil {
+				nonNeg := false
+				dm := describe(m)
+				for _, g := range guardStrings(sl.Block()) {
+					if k, pol := normCond(g); k == "("+dm+" < 0)" && !pol {
+						nonNeg = true
+					}
+				}
+				if nonNeg {
+					r.ok(fmt.Sprintf("%s#found-index(%s)", fname(fn), which), sl.Pos(), "the bound is the index bytes.IndexByte found in the operand itself, tested non-negative")
+					return
+				}
+			}
 			if reason, ok := proxyprotoAuditedBounds[key]; ok {
 				r.ok(key, sl.Pos(), "audited: "+reason)
 				return
@@ -464,4 +478,46 @@ func constSet(v ssa.Value, depth int) ([]int64, bool) {
 		return constSet(x.X, depth+1)
 	}
 	return nil, false
+}
+
+// foundIndexBound recognises x[:m] ("head") and x[m+1:] ("tail") where m was found in x by bytes.IndexByte
+// (directly, or edge by edge when x and m are merged by phis of the same block). It returns m.
+func foundIndexBound(sl *ssa.Slice) (ssa.Value, string) {
+	var found func(m, x ssa.Value, depth int) bool
+	found = func(m, x ssa.Value, depth int) bool {
+		if depth > 3 {
+			return false
+		}
+		if c, ok := m.(*ssa.Call); ok {
+			switch calleeName(c.Common()) {
+			case "bytes.IndexByte", "bytes.Index", "bytes.IndexAny", "bytes.IndexRune", "strings.IndexByte", "strings.Index":
+				return c.Common().Args[0] == x
+			}
+			return false
+		}
+		mp, ok1 := m.(*ssa.Phi)
+		xp, ok2 := x.(*ssa.Phi)
+		if ok1 && ok2 && mp.Block() == xp.Block() && len(mp.Edges) == len(xp.Edges) {
+			for i := range mp.Edges {
+				if !found(mp.Edges[i], xp.Edges[i], depth+1) {
+					return false
+				}
+			}
+			return true
+		}
+		return false
+	}
+	switch {
+	case sl.Low == nil && sl.High != nil && sl.Max == nil:
+		if found(sl.High, sl.X, 0) {
+			return sl.High, "head"
+		}
+	case sl.Low != nil && sl.High == nil && sl.Max == nil:
+		if b, ok := sl.Low.(*ssa.BinOp); ok && b.Op == token.ADD {
+			if k, isC := constInt(b.Y); isC && k == 1 && found(b.X, sl.X, 0) {
+				return b.X, "tail"
+			}
+		}
+	}
+	return nil, ""
 }
